@@ -40,6 +40,7 @@ def run(tier, seed, t0):
     floors = {
         "grids_beyond_a_million_voxels": (m.bins.get("grids_beyond_a_million_voxels", 0), 1.4 * nh),
         "grids": (m.evaluations, 0.99 * (n + na)),
+        "grids_storing_the_extreme_values_of_the_object_type": (m.bins.get("grids_storing_the_extreme_values_of_the_object_type", 0), 0.25 * (n + na)),
         "max_corner_points": (b("corner:max"), 0.7 * ev),
         "min_corner_points": (b("corner:min"), 0.7 * ev),
         "mixed_corner_points": (b("corner:mixed"), 4 * ev),
